@@ -5,7 +5,7 @@
 set -u
 cd /verif
 export GOFLAGS=-mod=mod GOPROXY=off GOSUMDB=off GOTOOLCHAIN=local; unset GOWORK
-ls benign/*.diff | xargs -P 6 -I{} sh -c 'out=$(bin/crsverif -property ALL -no-evidence -patch {} 2>&1); reps=$(echo "$out" | grep "^PROP .* REPORTS" | cut -d" " -f2 | tr "\n" " "); if echo "$out" | grep -q "^PATCH .* SKIPPED"; then echo "SKIPPED {}"; elif [ -n "$reps" ]; then echo "FALSE-ALARM {}: $reps"; echo "$out" | grep "^    \[" | cut -c1-240 | head -3; else echo "silent {}"; fi' | sort > /tmp/benign.$$
+ls benign/*.diff | xargs -P 6 -I{} sh -c 'out=$(bin/crsverif -property ALL -no-evidence -patch {} 2>&1); reps=$(echo "$out" | grep "^PROP .* REPORTS" | cut -d" " -f2 | tr "\n" " "); if echo "$out" | grep -q "^PATCH .* SKIPPED"; then echo "SKIPPED {}"; elif [ -n "$reps" ]; then echo "FALSE-ALARM {}: $reps :: $(echo "$out" | grep "^    \[" | cut -c1-200 | head -4 | tr "\n" "~")"; else echo "silent {}"; fi' | sort > /tmp/benign.$$
 grep -v '^silent' /tmp/benign.$$
 echo "SUMMARY benign_refactorings=$(grep -c . /tmp/benign.$$) silent=$(grep -c '^silent' /tmp/benign.$$) false_alarms=$(grep -c '^FALSE-ALARM' /tmp/benign.$$) skipped=$(grep -c '^SKIPPED' /tmp/benign.$$)"
 rc=0; grep -q '^FALSE-ALARM' /tmp/benign.$$ && rc=1; rm -f /tmp/benign.$$; exit $rc
